@@ -377,7 +377,7 @@ class MultiplyOperator(Operator):
             if isinstance(self.domain, RealNumbers):
                 return InnerProductOperator(self.multiplicand)
             elif isinstance(self.domain, ComplexNumbers):
-                return InnerProductOperator(self.multiplicand.conjugate())
+                return InnerProductOperator(self.multiplicand)
             else:
                 raise NotImplementedError(
                     'adjoint not implemented for domain{!r}'
